@@ -25,6 +25,8 @@ type Director struct {
 	n    int
 	// lastNonce per identity (director-side monotone nonces)
 	lastNonce map[string]int64
+	// lastOld: argument list of the identity's last accepted old-format keep-alive (for replays)
+	lastOld map[string][]interface{}
 	// desync: an operation the model knows nothing about took effect (an
 	// altered request was accepted while the deciding oracle belongs to
 	// another property): the run ends quietly
@@ -32,7 +34,7 @@ type Director struct {
 }
 
 func NewDirector(w *World, props ...string) *Director {
-	d := &Director{W: w, name: "director", on: map[string]bool{}, lastNonce: map[string]int64{}}
+	d := &Director{W: w, name: "director", on: map[string]bool{}, lastNonce: map[string]int64{}, lastOld: map[string][]interface{}{}}
 	for _, p := range props {
 		d.on[p] = true
 	}
@@ -369,8 +371,24 @@ func uriClass(override, addr string) string {
 	return c
 }
 
+// oldUpdatePayload is what agents of older versions sign for vipnode_update
+// (the pool still accepts it): only the peers and block_number fields.
+type oldUpdatePayload struct {
+	Peers       []string `json:"peers"`
+	BlockNumber uint64   `json:"block_number"`
+}
+
 // Update sends a keep-alive reporting the given peer ids.
 func (d *Director) Update(a *Actor, reported []string, block uint64) (*pool.UpdateResponse, error) {
+	return d.update(a, reported, block, false)
+}
+
+// UpdateOld sends a keep-alive signed in the deprecated format.
+func (d *Director) UpdateOld(a *Actor, reported []string, block uint64) (*pool.UpdateResponse, error) {
+	return d.update(a, reported, block, true)
+}
+
+func (d *Director) update(a *Actor, reported []string, block uint64, oldFormat bool) (*pool.UpdateResponse, error) {
 	w := d.W
 	d.n++
 	if a.Conn == nil || a.Conn.Closed {
@@ -382,7 +400,22 @@ func (d *Director) Update(a *Actor, reported []string, block uint64) (*pool.Upda
 	t0 := time.Now()
 	ctx, cancel := d.ctx()
 	defer cancel()
-	resp, err := a.Conn.RP.Update(ctx, pool.UpdateRequest{PeerInfo: PeerInfos(reported), BlockNumber: block})
+	var resp *pool.UpdateResponse
+	var err error
+	if oldFormat {
+		op = strings.Replace(op, "update(", "update[old-format signature](", 1)
+		nonce := d.nonce(a.ID)
+		req := pool.UpdateRequest{Peers: reported, PeerInfo: PeerInfos(reported), BlockNumber: block}
+		args := a.Signed("vipnode_update", nonce, oldUpdatePayload{Peers: reported, BlockNumber: block})
+		args[3] = req
+		var r pool.UpdateResponse
+		if err = a.Call(ctx, &r, "vipnode_update", args...); err == nil {
+			resp = &r
+			d.lastOld[a.ID] = args
+		}
+	} else {
+		resp, err = a.Conn.RP.Update(ctx, pool.UpdateRequest{PeerInfo: PeerInfos(reported), BlockNumber: block})
+	}
 	t1 := time.Now()
 	d.logf("%s -> %v", op, err)
 
